@@ -23,7 +23,7 @@ TECHNIQUE = ("Lean 4 proofs over an executable model of the verifier (ValidatedE
              "deleted / corrupted per field / consistently forged on grids with one or several shares per server, check with and "
              "without verify, check_and_repair (also through a verify-cap node), post-repair results vs a fresh verify by a second "
              "client, read from the repaired shares only, byte-identity of pre-existing shares")
-LEVEL_TEXT = ("Proved (25 theorems, one _partial): verified_good_implies_all_valid (a share the verifier reports good carries the published UEB, "
+LEVEL_TEXT = ("Proved (26 theorems, one _partial): verified_good_implies_all_valid (a share the verifier reports good carries the published UEB, "
               "exactly the uploader's blocks and only published hash-tree nodes, for arbitrary server answers; each share read with "
               "its own trees); healthy_iff_N_good, recoverable_iff_k_good, corrupt_shares_listed (the arithmetic and lists of "
               "_format_results); noverify_believes_servers (verify=False counts exactly the claimed share numbers); "
